@@ -24,7 +24,7 @@ def run(tier, seed, replay=None):
     for i in (0, 5000, n - 1):
         rep.sample(events[min(i, n - 1)])
     rep.extra["rejected_events"] = len(bad)
-    rep.assumptions = ["agreement with the vector definition is decided to about 0.005 degree + 3e-4 degree / sin(distance) (32-bit fixed point), not the 1e-6 degree the property states; "
+    rep.assumptions = ["agreement with the vector definition is decided to about 0.001 degree + 3e-4 degree / sin(distance) (32-bit fixed point), not the 1e-6 degree the property states; "
                        "the symmetry relations are decided at 1e-6 degree",
                        "points within ~0.26 degree of the Kaaba or its antipode are exempt (property: 0.1 degree)"]
     for idx in bad:
